@@ -63,7 +63,7 @@ func Verif_C12_regex_language() {
 // panic, no rule function that silently matches more than what was written).
 func Verif_C12_malformed_refused() {
 	var rd FirewallRuleData
-	switch verifapi.Choose(14) {
+	switch verifapi.Choose(15) {
 	case 0:
 		rd = FirewallRuleData{"action": "drop", "fromnode": "/"} // lone slash
 		verifapi.Known("lone-slash", true)
@@ -111,6 +111,16 @@ func Verif_C12_malformed_refused() {
 			verifapi.Assume(!verifEqualFoldASCII(act, legal))
 		}
 		rd = FirewallRuleData{"action": act, "fromnode": "x"}
+	case 14: // a pattern that cannot be interpreted in ANY one field, together with any subset of well-formed other fields
+		fields := []string{"fromnode", "tonode", "fromservice", "toservice"}
+		bad := verifapi.Choose(4)
+		rd = FirewallRuleData{"action": []string{"accept", "drop", "reject"}[verifapi.Choose(3)]}
+		rd[fields[bad]] = []string{"/ctl[12/", "/abc", "/a(/", "/", "/*a/"}[verifapi.Choose(5)]
+		for i, f := range fields {
+			if i != bad && verifapi.Bool() {
+				rd[f] = []string{"lit", "/a.*/"}[verifapi.Choose(2)]
+			}
+		}
 	}
 	rules, err := ParseFirewallRules([]FirewallRuleData{{"action": "accept", "fromnode": "ok"}, rd})
 	verifapi.Cover("parsed")
